@@ -26,7 +26,7 @@ R = 'Scalibr.Relax.'
 S = 'Scalibr.Suggest.'
 M = 'Scalibr.OverrideMulti.'
 THEOREMS = [U + 'C11_allows_table', U + 'C11_allows_meaning', U + 'C11_rank_exists_iff', U + 'C11_rank_is_order_partial', U + 'C11_no_rank_of_cycle',
-            O + 'C11_override_step', O + 'C11_override_upward_partial', O + 'C11_override_unsorted_witness', O + 'C11_override_equal_version_witness',
+            O + 'C11_override_step', O + 'C11_override_upward_partial', O + 'C11_override_unsorted_witness', O + 'C11_override_equal_version_fixed',
             O + 'C11_cumulative_partial', O + 'C11_terminates_partial', O + 'C11_terminates_bound_partial',
             M + 'C11_terminates_multi_partial', M + 'C11_terminates_multi_bound_partial', M + 'C11_cumulative_multi_partial',
             O + 'C11_none_untouched_override', 'Scalibr.OverrideMulti.C11_override_multi_step', 'Scalibr.OverrideMulti.C11_none_untouched_multi', 'Scalibr.OverrideMulti.C11_override_pin_overtaken_witness', R + 'C11_relax_step', R + 'C11_none_untouched_relax', S + 'C11_update_step', S + 'C11_update_no_current', S + 'C11_update_reported', S + 'C11_update_patch',
@@ -65,6 +65,8 @@ def run(ctx):
                 'last_affected / explicit lists) through the real override patchVulns loop with in-memory resolve client and local matcher; mo = three Maven packages (two direct, one transitive whose version depends on the '
                 'direct ones; 2-6 versions each with patch/minor/major steps), 2-4 vulnerability records of which about half affect two packages, never-fixed and windowed advisories on the transitive package, per-package levels '
                 '(major/minor/patch/none), through the same real loop, the resolver tabulated per (direct, direct) pair; every written override is judged against the version the package resolves to WITHOUT it in the final manifest; '
+                'rl = npm manifest `lib ^1.0.0`, 3-6 major versions of lib each bringing its own set of never-fixed vulnerable packages (so steps fix some and introduce several: diamonds in the '
+                'introduced-vulnerability graph), through the real public FixVulns (relax) under a 4 s watchdog: a call that does not return is `r=hang`; '
                 'up = a pom that declares the same groupId:artifactId several times with different versions (jar / test-jar / classifier variants in <dependencies>, dependencyManagement, a profile, a pluginManagement plugin; '
                 'versions across major and minor boundaries, ranges, unknown versions; per-package and default levels; IgnoreDev) through the real public Update, judged per requirement on result.Patches and per declaration on the re-read pom. thorough adds every subset of 6 versions x level x '
                 '1-2 chained vulnerabilities (override) and 25 requirements x 4 levels x 3 universes (relax). non-trivial = the real code changed something; distinct = distinct case lines')
@@ -93,6 +95,8 @@ def run(ctx):
             return r == 'ok' and fm.get('rounds', '0') != '0'
         if op == 'up':
             return fi.get('ups', '-') != '-'
+        if op == 'rl':
+            return fi.get('patches', '0') != '0'
         return r == 'ok' and fi.get('final') != case.split(' | ')[1].split(' ')[1]
 
     def oracle(case, fi, fm):
@@ -116,6 +120,12 @@ def run(ctx):
                 return 'override ended at version #%s: not the base and not strictly above it with an allowed difference to the base' % fi.get('final')
             if fm.get('laws') != '1' and int(fi.get('final', '-1')) < int(case.split(' | ')[1].split(' ')[1]):
                 return 'override ended below the base'
+        elif op == 'rl':
+            if r == 'hang':
+                return ('FixVulns (npm / relax) did not return within the watchdog time: the computation does not terminate on this universe '
+                        '(the termination clause of C11; the loop models terminate: C11_terminates_partial / C11_terminates_multi_partial)')
+            if r != 'ok':
+                return 'relax end to end: ' + r
         elif op == 'up':
             if r != 'ok':
                 return 'Update on a whole pom: ' + r
@@ -187,6 +197,8 @@ def run(ctx):
         extra = ' rounds=%s laws=%s' % (fm.get('rounds'), fm.get('laws')) if op == 'ov' else (' rounds=%s' % fm.get('rounds') if op == 'mo' else '')
         if op == 'mo':
             return 'mo r=%s%s' % (r, extra)
+        if op == 'rl':
+            return 'rl r=%s patches=%s' % (r, fi.get('patches'))
         if op == 'up':
             return 'up r=%s updates=%s samekey=%s' % (r, 'some' if fi.get('ups', '-') != '-' else 'none', '1' if 'pomd' in fm else '0')
         return '%s level=%s r=%s%s' % (op, case.split(' ')[1], r, extra)
